@@ -1374,6 +1374,40 @@ _sp["level_text"] += (
     "tarpc::serde_transport::Transport is driven over byte streams failing with ten io::ErrorKinds and compared item by "
     "item.")
 
+# ---- C15 part sock: the tcp / unix front ends of the serde transport with custom framing (coq/SockFront.v) ----
+SOCK_PART = {
+    "name": "sock",
+    "harness": "sock",
+    "gen_args": [],
+    "run_args": [],
+    "cases_header": HDR.format(mods="SockFront Checks.C15sock"),
+    "case_term": lambda c: f"({c['cfg']}, {c['ops']}, {c['obs']})",
+    "quick": {"count": 200},
+    "thorough": {"count": 3000},
+    "sweeps": [[]],
+    "nontrivial": has("custom-framing"),
+    "rule": "part sock: REAL loopback TCP and unix-domain sockets through serde_transport::tcp::{listen, connect} and "
+            "serde_transport::unix::{listen, connect}, the length-delimited framing set on BOTH sides through "
+            "config_mut() (length field of 1, 2, 3, 4 or 8 bytes, big or little endian, frame limit 255 B .. 8 MiB), "
+            "bincode / JSON, 1..7 messages in both directions with bodies from empty to just under what the length "
+            "field and the frame limit allow; what each end reads is compared with SockFront.sk_model (every message "
+            "intact, in order, end-of-stream after the writer is dropped) and judged by SockFront.sk_ok; non-trivial = the "
+            "framing differs from the default; thorough adds every length-field width x byte order x transport x codec "
+            "and a 9 MiB body under a raised frame limit",
+    "max_shrinks": 2,
+}
+_sp = SPECS["C15"]
+_sp["parts"] = (_sp.get("parts") or [{}]) + [SOCK_PART]
+_sp["coq_targets"] = _sp["coq_targets"] + ["Checks/C15sock.vo"]
+_sp["trusted_base"] = _sp["trusted_base"] + [
+    "part sock: the operating system's loopback TCP and unix-domain sockets and tokio's reactor carry the bytes (real, "
+    "not modelled); the front ends are modelled as the identity on the message sequence (SockFront.v)"]
+_sp["level_text"] += (
+    " Part sock (third session): the socket front ends (tcp / unix listen, Incoming, connect futures and their "
+    "config_mut()) are driven over real loopback sockets with non-default framing on both sides and must deliver every "
+    "message intact, in order, and end-of-stream after the writer's drop: C15_sock_model_ok, C15_sock_ok_only about "
+    "the model SockFront.v.")
+
 # ---- chain composition (coq/Chain*.v, harness `chain`): parts of C04, C18, C07 ----
 CHAIN_RULE = ("REAL chains of depth 1..3: node i = client::new + BaseChannel::with_defaults(rx).requests() over "
               "transport::channel::unbounded() (client end through a forwarding tap that notes successful writes); the handler "
